@@ -213,7 +213,9 @@ class Ctx:
 
         def _emit(x, metadata=None):
             saved_root = rec.root
-            if entry and ctx.entry_pending[nid]:
+            if entry and rec.root is None and ctx.entry_pending[nid]:
+                # (a nested emit - a consumer forwarding into this entry point - stays in the extent of the
+                # emit it is nested in; only an emit issued by a producer opens a new extent)
                 rec.root = ctx.entry_pending[nid].pop(0)
             elif cont and ctx.cont_roots[nid]:
                 rec.root = ctx.cont_roots[nid].pop(0)
